@@ -367,7 +367,6 @@ func main() {
 	}
 	wg.Wait()
 
-
 	// 3. crashes: confirm by running the seed alone in a fresh process
 	exit := 0
 	replayDir := filepath.Join(verifDir, "replays")
